@@ -73,6 +73,13 @@ func firstFrames(g gor, n int) string {
 }
 
 func (wk *worker) runCase(c *Case) (res CaseResult) {
+	if c.Overlap {
+		if c.Procs < 1 {
+			c.Procs = 4
+		}
+		runtime.GOMAXPROCS(c.Procs)
+		return wk.runOverlap(c)
+	}
 	res.Counts = map[string]int{}
 	res.CorrOK = true
 	count := func(k string) { res.Counts[k]++ }
